@@ -18,6 +18,9 @@ LEAN = os.path.join(VERIF, "lean")
 WORK = os.path.join(VERIF, ".work")
 ALLOWED_AXIOMS = {"propext", "Classical.choice", "Quot.sound"}
 NWORKERS = int(os.environ.get("VERIF_JOBS", "16"))
+# evidence goes to /verif/evidence; mutation sweeps (tools/mutation_sweep.py) redirect it so that the committed evidence
+# always comes from runs against /repo itself
+EVID = os.environ.get("VERIF_EVIDENCE_DIR", os.path.join(VERIF, "evidence"))
 
 
 def sh(cmd, cwd=None, inp=None, timeout=None):
@@ -270,13 +273,13 @@ def main():
     seed = int(os.environ.get("VERIF_SEED", "1"))
     t0 = time.time()
     cfg = props.PROPS[prop]
-    os.makedirs(os.path.join(VERIF, "evidence", "replays"), exist_ok=True)
+    os.makedirs(os.path.join(EVID, "replays"), exist_ok=True)
 
     try:
         build = build_repo.ensure_build()
     except RuntimeError as e:
         # the tree does not build: nothing can be shown to hold
-        rp = os.path.join(VERIF, "evidence", "replays", f"{prop}-build.json")
+        rp = os.path.join(EVID, "replays", f"{prop}-build.json")
         json.dump(dict(property=prop, broken="build of /repo's working tree", log=str(e)[-4000:]), open(rp, "w"), indent=1)
         print(f"VIOLATION property={prop} replay={rp} no-failing-input-found")
         write_evidence(prop, tier, seed, cfg, dict(obligations=0, discharged=0, names=[], broken=[]), [], [], time.time() - t0, 1, {})
@@ -361,9 +364,9 @@ def main():
         if rs["verdict"].startswith("ok"):
             small, rs = first["case"], first
         k = 0
-        while os.path.exists(os.path.join(VERIF, "evidence", "replays", f"{prop}-{k}.json")):
+        while os.path.exists(os.path.join(EVID, "replays", f"{prop}-{k}.json")):
             k += 1
-        rp = os.path.join(VERIF, "evidence", "replays", f"{prop}-{k}.json")
+        rp = os.path.join(EVID, "replays", f"{prop}-{k}.json")
         json.dump(dict(property=prop, seed=seed, tier=tier, case=small, original_case=first["case"],
                        implementation_output=rs["result"], verdict=rs["verdict"], finding=cls,
                        n_failing_cases=len(violations), other_failing_cases=[v["case"] for v in violations[1:6]],
@@ -378,9 +381,9 @@ def main():
         exit_code = 1
     elif aud["broken"]:
         k = 0
-        while os.path.exists(os.path.join(VERIF, "evidence", "replays", f"{prop}-obl-{k}.json")):
+        while os.path.exists(os.path.join(EVID, "replays", f"{prop}-obl-{k}.json")):
             k += 1
-        rp = os.path.join(VERIF, "evidence", "replays", f"{prop}-obl-{k}.json")
+        rp = os.path.join(EVID, "replays", f"{prop}-obl-{k}.json")
         json.dump(dict(property=prop, broken_obligations=aud["broken"], searched_cases=len(results),
                        note="proof obligations no longer check; no failing input found on the implementation",
                        build_log_tail=aud.get("build_log_tail", "")), open(rp, "w"), indent=1)
@@ -433,8 +436,8 @@ def write_evidence(prop, tier, seed, cfg, aud, results, knowns, wall, nviol, ext
             traces_validated_against_impl=len(oks), known_finding_cases=len(knowns), exhaustive=False, **extra),
         assumptions=cfg.get("assumptions", []),
         wall_s=round(wall, 2), violations=nviol)
-    os.makedirs(os.path.join(VERIF, "evidence"), exist_ok=True)
-    json.dump(ev, open(os.path.join(VERIF, "evidence", f"{prop}.json"), "w"), indent=1)
+    os.makedirs(EVID, exist_ok=True)
+    json.dump(ev, open(os.path.join(EVID, f"{prop}.json"), "w"), indent=1)
 
 
 if __name__ == "__main__":
